@@ -546,4 +546,37 @@ theorem parseText_err {path : String} {text : List UInt8} {e : Err} (h : parseTe
       have hx : Ext ⟨0, decodeAll text⟩ s' := ext_of_err (fileLoop_ext path 0 [] _) hp
       exact errOK_mono this.2 ((good_start text).ext hx).le
 
+theorem locationL_pos (stop : Nat) (pos line col : Nat) (toks : List Tok) (hl : 1 ≤ line) (hc : 1 ≤ col) :
+    1 ≤ (locationL stop pos line col toks).1 ∧ 1 ≤ (locationL stop pos line col toks).2 := by
+  induction toks generalizing pos line col with
+  | nil => exact ⟨hl, hc⟩
+  | cons t rest ih =>
+    unfold locationL
+    split
+    · exact ⟨hl, hc⟩
+    · split
+      · exact ih _ _ _ (by omega) (Nat.le_refl _)
+      · exact ih _ _ _ hl (by omega)
+
+
+mutual
+theorem nodeAll_of_wf (text : List UInt8) : ∀ (n : Node) (lo hi : Nat), nodeWF lo hi n = true → hi ≤ text.length →
+    nodeAll (extractOK text) n = true
+  | .mk k r cs, lo, hi, h, hh => by
+    rw [nodeWF_mk] at h
+    simp only [nodeAll, Bool.and_eq_true]
+    refine ⟨?_, nodesAll_of_wf text cs r.start r.stop h.2 (by omega)⟩
+    have hr : r.start ≤ r.stop ∧ r.stop ≤ text.length := ⟨by omega, by omega⟩
+    show (Range.extract text r == some (slice text r.start r.stop)) = true
+    simp [Range.extract, hr, slice]
+theorem nodesAll_of_wf (text : List UInt8) : ∀ (cs : List Node) (lo hi : Nat), nodesWF lo hi cs = true → hi ≤ text.length →
+    nodesAll (extractOK text) cs = true
+  | [], _, _, _, _ => by simp [nodesAll]
+  | c :: cs, lo, hi, h, hh => by
+    rw [nodesWF_cons] at h
+    simp only [nodesAll, Bool.and_eq_true]
+    exact ⟨nodeAll_of_wf text c lo hi h.1 hh, nodesAll_of_wf text cs lo hi h.2 hh⟩
+end
+
+
 end Knut.Syntax
